@@ -24,6 +24,6 @@ func main() {
 		n = 600
 	}
 	vlib.ExecConformance(c, "C06", bins, vs, rand.New(rand.NewSource(vlib.Seed()+600)), n,
-		vlib.ExecMode{Faults: true, Sentinel: true, Devs: []vlib.DevStep{{Config: "GqlExecTraceDev.cfg", Key: vlib.LeafElemKey}}, Scheds: true, Mutations: true, PlansPer: 2, Env: []string{"GORACE=halt_on_error=1"}, Corpus: append(append(vlib.MergeCorpus("C06"), vlib.StressCorpus("C06", 64)...), vlib.VarShareCorpus("C06", 24)...)})
+		vlib.ExecMode{Faults: true, Rogue: true, Sentinel: true, Devs: []vlib.DevStep{{Config: "GqlExecTraceDev.cfg", Key: vlib.LeafElemKey}}, Scheds: true, Mutations: true, PlansPer: 2, Env: []string{"GORACE=halt_on_error=1"}, Corpus: append(append(vlib.MergeCorpus("C06"), vlib.StressCorpus("C06", 64)...), vlib.VarShareCorpus("C06", 24)...)})
 	c.Finish()
 }
